@@ -764,6 +764,74 @@ static C04Res c04Once(const Instance& I, const ParamSet& cfg, int loadMode, uint
          {
             size_t c = r.find(':');
             R.set("basis." + r.substr(0, c) + ".after-warmstart", r.substr(c + 1));
+            return R;
+         }
+      }
+      // (h) bound-class changes while a basis is held (fix / unfix / free a column, drop or add a side of a row): as long as
+      // hasBasis() stays true the reported statuses must remain consistent with the *new* bounds
+      {
+         int nmod = g.range(1, 4);
+         try
+         {
+         for(int t = 0; t < nmod && q.hasBasis() && m > 0 && n > 0; t++)
+         {
+            int w = g.range(0, 9);
+            int mq = q.numRows(), nq = q.numCols();
+            if(mq < 1 || nq < 1) break;
+            int j = g.range(0, nq - 1), i = g.range(0, mq - 1);
+            double v = (double)g.range(-4, 4);
+            const char* what = "";
+            if(w == 8 && mq > 2)
+            {
+               // remove rows through the permutation interface (survivors are renumbered, their statuses must move with them)
+               what = "removeRowsReal(perm)";
+               std::vector<int> perm(mq, 0);
+               int nrem = 0;
+               for(int r_ = 0; r_ < mq; r_++) if(g.chance(0.3) && nrem < mq - 1)
+                  {
+                     perm[r_] = -1;
+                     nrem++;
+                  }
+               q.removeRowsReal(perm.data());
+            }
+            else if(w == 9 && nq > 2)
+            {
+               what = "removeColsReal(perm)";
+               std::vector<int> perm(nq, 0);
+               int nrem = 0;
+               for(int c_ = 0; c_ < nq; c_++) if(g.chance(0.3) && nrem < nq - 1)
+                  {
+                     perm[c_] = -1;
+                     nrem++;
+                  }
+               q.removeColsReal(perm.data());
+            }
+            else if(w >= 8) continue;
+            else if(w == 0) { what = "changeLowerReal(-inf)"; q.changeLowerReal(j, -soplex::infinity); }
+            else if(w == 1) { what = "changeUpperReal(+inf)"; q.changeUpperReal(j, soplex::infinity); }
+            else if(w == 2) { what = "changeBoundsReal(fix)"; q.changeBoundsReal(j, v, v); }
+            else if(w == 3) { what = "changeBoundsReal(free)"; q.changeBoundsReal(j, -soplex::infinity, soplex::infinity); }
+            else if(w == 4) { what = "changeLhsReal(-inf)"; q.changeLhsReal(i, -soplex::infinity); }
+            else if(w == 5) { what = "changeRhsReal(+inf)"; q.changeRhsReal(i, soplex::infinity); }
+            else if(w == 6) { what = "changeRangeReal(eq)"; q.changeRangeReal(i, v, v); }
+            else { what = "changeBoundsReal(box)"; q.changeBoundsReal(j, v, v + 3.0); }
+            if(count) S.count(std::string("c04.boundclass_change.") + what);
+            if(!q.hasBasis()) break;
+            LPModel M2 = readBackReal(q);
+            std::string r = monitorBasis(q, M2, false);
+            if(count) S.count("c04.basis_after_boundclass_change_checked");
+            if(!r.empty())
+            {
+               size_t c = r.find(':');
+               R.set("basis." + r.substr(0, c) + ".after-" + what, r.substr(c + 1));
+               return R;
+            }
+         }
+         }
+         catch(const SPxException& e)
+         {
+            R.set("basis.exception.after-modification", std::string("exception while querying the basis after a modification: ") + e.what());
+            return R;
          }
       }
       return R;
